@@ -68,6 +68,9 @@ def load_one(lit: LineIterator) -> dict:
 
     # mulliken charges
     if data.get("mulliken_charges") is not None:
+        if "atnums" in result and len(data["mulliken_charges"]) != len(result["atnums"]):
+            # E.g. a file that ends in the middle of a fragment calculation.
+            raise LoadError("The number of Mulliken charges differs from the number of atoms.", lit)
         result["atcharges"] = {"mulliken": data["mulliken_charges"]}
 
     # build molecular orbitals
